@@ -823,9 +823,151 @@ def check_window(sc, run) -> List[tuple]:
     return out
 
 
+def backlog_scenarios():
+    out = []
+    for n in (10, 63, 64, 65, 130, 200):
+        for mode in ("receive", "iter"):
+            for buf in (0, 256):
+                for steps in (1, 2, 3):
+                    for disturb in ("cancel", "timeout"):
+                        for close_first in (True, False):
+                            out.append({"kind": "backlog", "n": n, "mode": mode, "buf": buf, "steps": steps, "disturb": disturb, "close_first": close_first})
+    return out
+
+
+def run_backlog(sc):
+    """a LONG backlog: n items are queued before the only receiver starts; it is cancelled / timed out after a few loop
+    iterations (wherever it happens to be by then), a late-comer drains the closed channel; every item must have been
+    received exactly once by one of the two, in order"""
+    from betterproto.grpc.util.async_channel import AsyncChannel, ChannelClosed, ChannelDone
+
+    ev: List[tuple] = []
+    outcome: Dict[str, str] = {}
+    loop_errors: List[str] = []
+
+    def log(*e):
+        ev.append((len(ev),) + e)
+
+    async def main():
+        loop = asyncio.get_running_loop()
+        loop.set_exception_handler(lambda l, ctx: loop_errors.append(str(ctx.get("message")) + ":" + repr(ctx.get("exception"))))
+        ch = AsyncChannel(buffer_limit=sc["buf"])
+        items = [Item((0, k)) for k in range(sc["n"])]
+        for it in items:
+            log("call", "s0", "send", tuple(it))
+            await ch.send(it)
+            log("ret", "s0", "send", "ok", tuple(it))
+        if sc["close_first"]:
+            log("call", "c", "close")
+            ch.close()
+            log("ret", "c", "close")
+        cms = {}
+
+        async def consume(who, kind):
+            it = ch.__aiter__()
+            while True:
+                log("call", who, kind)
+                try:
+                    x = await (ch.receive() if kind == "receive" else it.__anext__())
+                except (ChannelDone, StopAsyncIteration) as e:
+                    log("ret", who, kind, type(e).__name__)
+                    return
+                log("ret", who, kind, x)
+                if x is None:
+                    return
+
+        async def r0():
+            try:
+                if sc["disturb"] == "timeout":
+                    async with asyncio.timeout(None) as cm:
+                        cms["r0"] = cm
+                        await consume("r0", "receive" if sc["mode"] == "receive" else "anext")
+                else:
+                    await consume("r0", "receive" if sc["mode"] == "receive" else "anext")
+                outcome["r0"] = "done"
+            except asyncio.CancelledError:
+                outcome["r0"] = "cancelled"
+                log("ret", "r0", "exc", "CancelledError")
+                raise
+            except TimeoutError:
+                outcome["r0"] = "timeout"
+                log("ret", "r0", "exc", "TimeoutError")
+
+        outcome["r0"] = "stranded"
+        t = loop.create_task(r0())
+        for _ in range(sc["steps"]):
+            await asyncio.sleep(0)
+        if not t.done():
+            if sc["disturb"] == "cancel":
+                log("call", "x", "cancel", "r0")
+                t.cancel()
+            else:
+                log("call", "x", "timeout", "r0")
+                try:
+                    cms["r0"].reschedule(loop.time() - 1)
+                except (RuntimeError, KeyError):
+                    log("ret", "x", "timeout", "too-late")
+        for _ in range(6):
+            await asyncio.sleep(0)
+        if not sc["close_first"]:
+            log("call", "c", "close")
+            ch.close()
+            log("ret", "c", "close")
+        for _ in range(6):
+            await asyncio.sleep(0)
+        if not t.done():
+            # r0 was not disturbed in time and is still consuming / waiting: let it finish, bounded
+            for _ in range(sc["n"] + 20):
+                if t.done():
+                    break
+                await asyncio.sleep(0)
+        if not t.done():
+            t.cancel()
+            await asyncio.gather(t, return_exceptions=True)
+            outcome["r0"] = "stranded"
+        else:
+            await asyncio.gather(t, return_exceptions=True)
+        outcome["r_late"] = "stranded"
+        lt = loop.create_task(consume("r_late", "receive"))
+        for _ in range(sc["n"] + 40):
+            if lt.done():
+                break
+            await asyncio.sleep(0)
+        if lt.done() and lt.exception() is None:
+            outcome["r_late"] = "done"
+        elif not lt.done():
+            lt.cancel()
+            await asyncio.gather(lt, return_exceptions=True)
+
+    hang = False
+    try:
+        asyncio.run(asyncio.wait_for(main(), timeout=30))
+    except asyncio.TimeoutError:
+        hang = True
+    return {"events": ev, "outcome": outcome, "loop_errors": loop_errors, "hang": hang}
+
+
 def run_window_shard(shard) -> Result:
     res = Result()
     try:
+        hashes_b = set()
+        for sc in backlog_scenarios():
+            run = run_backlog(sc)
+            res.evaluations += 1
+            res.counters["schedules"] += 1
+            res.counters["backlog_scenarios"] += 1
+            h = history_hash(run)
+            if h not in hashes_b:
+                hashes_b.add(h)
+                res.distinct.add("backlog:" + h)
+                res.counters["distinct_histories"] += 1
+            scw = dict(sc, probe="none", order="close", blocked=1)
+            for ob, kind, detail in check_window(scw, run):
+                if ob in ("watchdog", "harness"):
+                    res.inconclusive.append(f"backlog {sc}: {kind} {detail}")
+                    continue
+                res.violation(ob, [ob, kind, "backlog>=64" if sc["n"] >= 64 else "backlog<64", "disturb=" + str(sc["disturb"]), "buf>0" if sc["buf"] else "unbounded"],
+                              f"backlog {sc}: {detail}; last events: {[e[1:] for e in run['events']][-12:]}", sc)
         scs = window_scenarios()
         hashes = set()
         for sc in scs:
@@ -900,6 +1042,12 @@ def replay(w):
 
     if w.get("kind") == "stub":
         return run_stub_shard({"seed": w["seed"], "reps": w["rep"] + 1}).violations
+    if w.get("kind") == "backlog":
+        res = Result()
+        scw = dict(w, probe="none", order="close", blocked=1)
+        for ob, kind, detail in check_window(scw, run_backlog(w)):
+            res.violation(ob, [ob, kind, "backlog>=64" if w["n"] >= 64 else "backlog<64", "disturb=" + str(w["disturb"]), "buf>0" if w["buf"] else "unbounded"], detail, w)
+        return res.violations
     if w.get("kind") == "window":
         res = Result()
         for ob, kind, detail in check_window(w["sc"], run_window(w["sc"])):
